@@ -54,7 +54,7 @@ type c11Sys struct {
 
 func (s c11Sys) tok() string {
 	switch s.K {
-	case 'o', 'c', 'u':
+	case 'o', 'c', 'u', 'k':
 		return string(s.K) + ":" + hs(mboxCanon(s.P))
 	case 'w':
 		return "w:" + hs(mboxCanon(s.P)) + ":" + strconv.Itoa(s.N)
@@ -68,6 +68,8 @@ func (s c11Sys) String() string {
 	switch s.K {
 	case 'o':
 		return "open(create/truncate) " + mboxCanon(s.P)
+	case 'k':
+		return "open(create, KEEP existing content) " + mboxCanon(s.P)
 	case 'w':
 		return fmt.Sprintf("write %d bytes to %s", s.N, mboxCanon(s.P))
 	case 'c':
@@ -316,6 +318,9 @@ func c11ParseTrace(trace, root, cwd string) c11Trace {
 			wfd[rv] = p
 			if (fl["O_WRONLY"] || fl["O_RDWR"]) && fl["O_CREAT"] && (fl["O_TRUNC"] || fl["O_EXCL"]) && !fl["O_APPEND"] && !fl["O_DIRECTORY"] && !fl["O_TMPFILE"] {
 				emit(line, c11Sys{K: 'o', P: p})
+			} else if (fl["O_WRONLY"] || fl["O_RDWR"]) && fl["O_CREAT"] && !fl["O_APPEND"] && !fl["O_DIRECTORY"] && !fl["O_TMPFILE"] {
+				// no truncation: whatever an earlier (crashed) run left in the file beyond the new bytes stays
+				emit(line, c11Sys{K: 'k', P: p})
 			} else {
 				other(line, "open("+flags+") "+p)
 			}
@@ -685,6 +690,9 @@ type c11Scn struct {
 	kind string
 	pre  []mOp
 	op   mOp
+	// stale: files (relative to the mailbox root) that an earlier crashed run left behind, planted into the
+	// pre-state with a content longer than any message
+	stale []string
 }
 
 var c11OpKind = map[byte]string{'I': "ProcessInbound", 'A': "AddOut", 'S': "SetSent", 'U': "SetUnread"}
@@ -778,10 +786,10 @@ func c11WriteData(script []c11Sys, root string, post map[string]string) (map[int
 	exact := true
 	for j, s := range script {
 		switch s.K {
-		case 'o':
+		case 'o', 'k':
 			dest := s.P
 			for _, l := range script[j+1:] {
-				if l.K == 'o' && l.P == s.P {
+				if (l.K == 'o' || l.K == 'k') && l.P == s.P {
 					break
 				}
 				if l.K == 'r' && l.P == s.P {
@@ -822,21 +830,44 @@ func c11WriteData(script []c11Sys, root string, post map[string]string) (map[int
 
 // apply performs one step of the script literally on the materialised directory (k >= 0: only the
 // first k bytes of a write).
+// c11KeepOff: write offsets of files opened WITHOUT truncation during one replay of a script.
+var c11KeepOff = map[string]int{}
+
 func c11Apply(s c11Sys, data []byte, k int) error {
 	switch s.K {
+	case 'k':
+		f, err := os.OpenFile(s.P, os.O_WRONLY|os.O_CREATE, 0o644)
+		if err != nil {
+			return err
+		}
+		c11KeepOff[s.P] = 0
+		return f.Close()
 	case 'o':
+		delete(c11KeepOff, s.P)
 		f, err := os.OpenFile(s.P, os.O_WRONLY|os.O_CREATE|os.O_TRUNC, 0o644)
 		if err != nil {
 			return err
 		}
 		return f.Close()
 	case 'w':
+		if k >= 0 && k < len(data) {
+			data = data[:k]
+		}
+		if off, keep := c11KeepOff[s.P]; keep {
+			f, err := os.OpenFile(s.P, os.O_WRONLY, 0)
+			if err != nil {
+				return err
+			}
+			_, err = f.WriteAt(data, int64(off))
+			c11KeepOff[s.P] = off + len(data)
+			if cerr := f.Close(); err == nil {
+				err = cerr
+			}
+			return err
+		}
 		f, err := os.OpenFile(s.P, os.O_WRONLY|os.O_APPEND, 0)
 		if err != nil {
 			return err
-		}
-		if k >= 0 && k < len(data) {
-			data = data[:k]
 		}
 		_, err = f.Write(data)
 		if cerr := f.Close(); err == nil {
@@ -914,6 +945,9 @@ func (e *c11Env) run(sc c11Scn) {
 	for _, o := range sc.pre {
 		rb.exec(o)
 	}
+	for _, rel := range sc.stale {
+		os.WriteFile(filepath.Join(root, rel), bytes.Repeat([]byte("left over from an earlier crash\r\n"), 300), 0o644)
+	}
 	s0 := c11TakeSnap(root)
 	if err := s0.materialise(root); err != nil { // the work directory W, at the same path
 		c.Violate("C11:harness:materialise", err.Error(), with())
@@ -948,6 +982,7 @@ func (e *c11Env) run(sc c11Scn) {
 	}
 
 	view := func(s c11Snap, upto int, data map[int][]byte, partial int) (c11View, string) {
+		c11KeepOff = map[string]int{}
 		if err := s.materialise(root); err != nil {
 			e.applyErrs++
 		}
@@ -1177,6 +1212,10 @@ func c11Gen(c *Ctx, kind string) c11Scn {
 	rng := c.Rng
 	pool := []string{"AAAAAAAAAAA1", "B2", "c.3-x"}
 	tgt, tgt2 := "NEWMID000001", "NEWMID000002"
+	if rng.Intn(4) == 0 {
+		// characters a MID may contain and that mean something to globbing / temp-name patterns / URLs
+		tgt = []string{"NEW*MID00001", "N[E]W?MID001", "NEW MID 0001", "NEW%MID%0001", "NEW*"}[rng.Intn(5)]
+	}
 	rcOut := [][2][]string{{{"LA1A"}, nil}, {{"LA1B"}, nil}, {{"LA1A"}, {"LA1C"}}, {{"someone@example.com"}, nil}}
 	msg := func(mid string, inbound bool) mMsg {
 		m := mMsg{Mid: mid, Payload: 1 + rng.Intn(40), Files: rng.Intn(3)}
@@ -1271,7 +1310,22 @@ func c11Gen(c *Ctx, kind string) c11Scn {
 		}
 		op = mOp{K: 'I', Msgs: []mMsg{m}}
 	}
-	return c11Scn{kind: kind, pre: pre, op: op}
+	scn := c11Scn{kind: kind, pre: pre, op: op}
+	if rng.Intn(3) == 0 {
+		// an earlier crash left the temp file of this very message behind
+		switch op.K {
+		case 'I':
+			scn.stale = []string{"in/" + tgt + ".b2f.tmp"}
+		case 'A':
+			scn.stale = []string{"out/" + tgt + ".b2f.tmp"}
+		case 'U':
+			scn.stale = []string{"in/" + tgt + ".b2f.tmp"}
+		}
+		if len(scn.stale) > 0 {
+			scn.kind += "+stale-tmp"
+		}
+	}
+	return scn
 }
 
 // ---------- prefix-parse measurement ----------
